@@ -100,6 +100,52 @@ def _jobs(js):
     return [check_chunk(j) for j in js]
 
 
+def header_chunk(args):
+    """Fortran text in a header named conf.h outside the code base, included by main.F90."""
+    from .. import cbi
+    cases, workdir = args
+    fails = []
+    stats = {"evals": 0}
+    for case in cases:
+        d = tempfile.mkdtemp(prefix="c17h-", dir=workdir)
+        try:
+            root = os.path.join(d, "root")
+            ext = os.path.join(d, "ext")
+            os.makedirs(root)
+            os.makedirs(ext)
+            hdr = os.path.join(ext, "conf.h")
+            with open(hdr, "w") as f:
+                f.write("\n".join(case["lines"]) + "\n#define HAVE_IT 1\n")
+            main = os.path.join(root, "main.F90")
+            with open(main, "w") as f:
+                f.write('#include "conf.h"\n#ifdef HAVE_IT\nx = 1\n#else\nx = 2\n#endif\n')
+            stats["evals"] += 1
+            st, cb, logs, err = cbi.run_find(root, {"p": [cbi.entry(main, [], [ext])]})
+            tg = tags_of(case["lines"]) | {"header.c_extension_outside_codebase"}
+            if err is not None:
+                fails.append(dict(layer="G", tags=sorted(tg | {"exception"}), symptom=f"exception:{err[0]}",
+                                  detail=f"{case['lines']!r} as conf.h: {err[1]}", case=case))
+                continue
+            la = cbi.line_attr(st, main)
+            used = sorted(k for k, v in la.items() if k != "__dup__" and "p" in v)
+            hl = cbi.line_attr(st, hdr) or {}
+            hcount = sorted(k for k in hl if k != "__dup__")
+            want_h = sorted(set(case["counted"]) | {len(case["lines"]) + 1})
+            if used != [1, 2, 3, 4, 6]:
+                fails.append(dict(layer="G", tags=sorted(tg), symptom="include-definition-lost",
+                                  detail=f"{case['lines']!r} as conf.h: main.F90 uses lines {used}, expected [1,2,3,4,6]", case=case))
+            elif hcount != want_h:
+                fails.append(dict(layer="G", tags=sorted(tg), symptom="counted-lines-differ",
+                                  detail=f"{case['lines']!r} as conf.h included from Fortran: counted {hcount}, reference {want_h}", case=case))
+        finally:
+            shutil.rmtree(d, ignore_errors=True)
+    return fails, stats
+
+
+def _hjobs(js):
+    return [header_chunk(j) for j in js]
+
+
 def gfortran_validate(ctx, cases, limit, seed):
     """`gfortran -cpp -E` must select the code markers the reference selects."""
     rnd = random.Random(seed)
@@ -178,6 +224,16 @@ def run(ctx):
         for fails, stats in lst:
             ctx.cov["evaluations"] += stats["evals"]
             ctx.cov["distinct_nontrivial"] += stats["nontrivial"]
+            for f in fails:
+                ctx.fail(f["layer"], f["tags"], f["symptom"], f["detail"], f["case"])
+    # (a') the same texts as a header WITHOUT a Fortran extension, outside the code base, included from a
+    # Fortran file: it must be scanned with the includer's language and its definitions must take effect
+    hdr_cases = [c for c in allc if not any(l.lstrip().startswith("#") for l in c["lines"])]
+    hdr_cases = hdr_cases[:: max(1, len(hdr_cases) // (150 if q else 1500))]
+    jobs = [(c, work) for c in runner.chunks(hdr_cases, runner.NCPU * 2)]
+    for lst in runner.pmap(_hjobs, jobs, chunk=1):
+        for fails, stats in lst:
+            ctx.cov["evaluations"] += stats["evals"]
             for f in fails:
                 ctx.fail(f["layer"], f["tags"], f["symptom"], f["detail"], f["case"])
     # (b) conditional selection in Fortran files
